@@ -73,6 +73,9 @@ BrowserSpec.vos BrowserSpec.vok BrowserSpec.required_vos: BrowserSpec.v Base.vos
 BrowserProofs.vo BrowserProofs.glob BrowserProofs.v.beautified BrowserProofs.required_vo: BrowserProofs.v Base.vo Fields.vo SrcFacts.vo Msg.vo SrcDecisions.vo Cache.vo CacheSpec.vo CacheProofs.vo Sim.vo Prober.vo Resolver.vo Browser.vo
 BrowserProofs.vio: BrowserProofs.v Base.vio Fields.vio SrcFacts.vio Msg.vio SrcDecisions.vio Cache.vio CacheSpec.vio CacheProofs.vio Sim.vio Prober.vio Resolver.vio Browser.vio
 BrowserProofs.vos BrowserProofs.vok BrowserProofs.required_vos: BrowserProofs.v Base.vos Fields.vos SrcFacts.vos Msg.vos SrcDecisions.vos Cache.vos CacheSpec.vos CacheProofs.vos Sim.vos Prober.vos Resolver.vos Browser.vos
+NetProofs.vo NetProofs.glob NetProofs.v.beautified NetProofs.required_vo: NetProofs.v Base.vo Fields.vo SrcFacts.vo Msg.vo SrcDecisions.vo Cache.vo CacheSpec.vo CacheProofs.vo Sim.vo Prober.vo Hostname.vo Resolver.vo Provider.vo ProviderSpec.vo Browser.vo BrowserProofs.vo
+NetProofs.vio: NetProofs.v Base.vio Fields.vio SrcFacts.vio Msg.vio SrcDecisions.vio Cache.vio CacheSpec.vio CacheProofs.vio Sim.vio Prober.vio Hostname.vio Resolver.vio Provider.vio ProviderSpec.vio Browser.vio BrowserProofs.vio
+NetProofs.vos NetProofs.vok NetProofs.required_vos: NetProofs.v Base.vos Fields.vos SrcFacts.vos Msg.vos SrcDecisions.vos Cache.vos CacheSpec.vos CacheProofs.vos Sim.vos Prober.vos Hostname.vos Resolver.vos Provider.vos ProviderSpec.vos Browser.vos BrowserProofs.vos
 ProviderProofs.vo ProviderProofs.glob ProviderProofs.v.beautified ProviderProofs.required_vo: ProviderProofs.v Base.vo Fields.vo SrcFacts.vo Msg.vo SrcDecisions.vo Cache.vo CacheSpec.vo CacheProofs.vo Sim.vo Prober.vo Hostname.vo HostnameProofs.vo Resolver.vo Provider.vo ProviderSpec.vo
 ProviderProofs.vio: ProviderProofs.v Base.vio Fields.vio SrcFacts.vio Msg.vio SrcDecisions.vio Cache.vio CacheSpec.vio CacheProofs.vio Sim.vio Prober.vio Hostname.vio HostnameProofs.vio Resolver.vio Provider.vio ProviderSpec.vio
 ProviderProofs.vos ProviderProofs.vok ProviderProofs.required_vos: ProviderProofs.v Base.vos Fields.vos SrcFacts.vos Msg.vos SrcDecisions.vos Cache.vos CacheSpec.vos CacheProofs.vos Sim.vos Prober.vos Hostname.vos HostnameProofs.vos Resolver.vos Provider.vos ProviderSpec.vos
@@ -97,9 +100,12 @@ Properties_C03.vos Properties_C03.vok Properties_C03.required_vos: Properties_C0
 Properties_C07.vo Properties_C07.glob Properties_C07.v.beautified Properties_C07.required_vo: Properties_C07.v Base.vo Fields.vo SrcFacts.vo Msg.vo SrcDecisions.vo Sim.vo Prober.vo ProberProofs.vo
 Properties_C07.vio: Properties_C07.v Base.vio Fields.vio SrcFacts.vio Msg.vio SrcDecisions.vio Sim.vio Prober.vio ProberProofs.vio
 Properties_C07.vos Properties_C07.vok Properties_C07.required_vos: Properties_C07.v Base.vos Fields.vos SrcFacts.vos Msg.vos SrcDecisions.vos Sim.vos Prober.vos ProberProofs.vos
-Properties_C04.vo Properties_C04.glob Properties_C04.v.beautified Properties_C04.required_vo: Properties_C04.v Base.vo Fields.vo SrcFacts.vo Msg.vo
-Properties_C04.vio: Properties_C04.v Base.vio Fields.vio SrcFacts.vio Msg.vio
-Properties_C04.vos Properties_C04.vok Properties_C04.required_vos: Properties_C04.v Base.vos Fields.vos SrcFacts.vos Msg.vos
+Properties_C09.vo Properties_C09.glob Properties_C09.v.beautified Properties_C09.required_vo: Properties_C09.v Base.vo Fields.vo SrcFacts.vo Msg.vo SrcDecisions.vo Sim.vo Prober.vo Hostname.vo HostnameProofs.vo Provider.vo ProviderSpec.vo ProviderProofs.vo
+Properties_C09.vio: Properties_C09.v Base.vio Fields.vio SrcFacts.vio Msg.vio SrcDecisions.vio Sim.vio Prober.vio Hostname.vio HostnameProofs.vio Provider.vio ProviderSpec.vio ProviderProofs.vio
+Properties_C09.vos Properties_C09.vok Properties_C09.required_vos: Properties_C09.v Base.vos Fields.vos SrcFacts.vos Msg.vos SrcDecisions.vos Sim.vos Prober.vos Hostname.vos HostnameProofs.vos Provider.vos ProviderSpec.vos ProviderProofs.vos
+Properties_C04.vo Properties_C04.glob Properties_C04.v.beautified Properties_C04.required_vo: Properties_C04.v Base.vo Fields.vo SrcFacts.vo Msg.vo SrcDecisions.vo Cache.vo Sim.vo Prober.vo Hostname.vo Provider.vo ProviderSpec.vo Browser.vo BrowserProofs.vo NetProofs.vo
+Properties_C04.vio: Properties_C04.v Base.vio Fields.vio SrcFacts.vio Msg.vio SrcDecisions.vio Cache.vio Sim.vio Prober.vio Hostname.vio Provider.vio ProviderSpec.vio Browser.vio BrowserProofs.vio NetProofs.vio
+Properties_C04.vos Properties_C04.vok Properties_C04.required_vos: Properties_C04.v Base.vos Fields.vos SrcFacts.vos Msg.vos SrcDecisions.vos Cache.vos Sim.vos Prober.vos Hostname.vos Provider.vos ProviderSpec.vos Browser.vos BrowserProofs.vos NetProofs.vos
 Properties_C20.vo Properties_C20.glob Properties_C20.v.beautified Properties_C20.required_vo: Properties_C20.v Base.vo Fields.vo SrcFacts.vo Msg.vo Cache.vo CacheSpec.vo CacheProofs.vo Values.vo ValuesProofs.vo
 Properties_C20.vio: Properties_C20.v Base.vio Fields.vio SrcFacts.vio Msg.vio Cache.vio CacheSpec.vio CacheProofs.vio Values.vio ValuesProofs.vio
 Properties_C20.vos Properties_C20.vok Properties_C20.required_vos: Properties_C20.v Base.vos Fields.vos SrcFacts.vos Msg.vos Cache.vos CacheSpec.vos CacheProofs.vos Values.vos ValuesProofs.vos
